@@ -202,4 +202,17 @@ theorem toList_refines {s : Queue} {l : Spec} (inv : Inv s l) :
   · simp [toList, hf, deref, hwf, inv.mem.readCells, bind, Except.bind]
   · simp [toListRev, hb, deref, hwb, bind, Except.bind]
 
+/-- the state after `muggle_queue_init` represents the empty queue -/
+theorem inv_init {c : Nat} {s : Queue} (h : init c = some s) :
+    Inv s [] ∧ s.mem.cells.length = 0 := by
+  have hm : MInv emptyMem [] := by
+    refine ⟨⟨by simp [path, ids], ?_⟩, by simp⟩
+    simp [path, ids, Link.Links, nxt, prv, DMem.get, emptyMem]
+  unfold init at h
+  split at h
+  · split at h
+    · simp at h
+    · injection h with h; subst h; exact ⟨⟨hm, rfl, by simp⟩, rfl⟩
+  · injection h with h; subst h; exact ⟨⟨hm, rfl, by simp⟩, rfl⟩
+
 end MgProof.C11.Q
